@@ -27,8 +27,8 @@ def run(tier, seed, replay=None):
                     "shortens the sequence; PARTIAL: stop before start). Part B, EVERY expression, script, consumer and sequence of legal external events: "
                     "cleanup_at_most_once, cleanup_after_outstanding_next, result_after_cleanup / cleanup_once_iff_next_started (from the protocol contract deliver_ok and "
                     "the root invariant RInv), stop_ends_early_no_dup_no_invent (stop at ANY position: delivered elements are a prefix of the specified sequence; "
-                    "expressions without take_until; from deliver_phi / deliver_need), stop_immediately_abandons_then_awaits. Part C: take_until_destructs_source_op_twice / "
-                    "take_until_destructs_running_source_op — the model, like take_until.hpp trigger_receiver::set_done, destructs sourceOp_ instead of triggerOp_. "
+                    "expressions without take_until; from deliver_phi / deliver_need), stop_immediately_abandons_then_awaits. Part C: take_until_receivers_destruct_their_own_op, "
+                    "take_until_cleanup_ops_balanced(_pending) — sourceOp_ / triggerOp_ each constructed once and destructed once (regression of DESIGN §8 #6). "
                     "Tie: full-trace equality of the real library and the calculus on generated cases (stop at a random position of every script); independent "
                     "monitors in the harness check cleanup-once, cleanup-after-outstanding-next, result-after-cleanup and the lifetime of every tracked next/cleanup "
                     "operation object (construction/destruction by address, running flag).")
